@@ -132,8 +132,9 @@ def gen_auth_cases(rng, quick):
 def user_tables(rng, n):
     kinds = ['pass', 'pass', 'modify', 'drop', 'reject', 'after']
     ts = []
+    names = P.pick_names(rng, n)
     for i in range(1, n + 1):
-        ts.append(P.mk_table(i, buc=P.rand_act(rng, kinds), hcr=P.rand_act(rng, kinds),
+        ts.append(P.mk_table(i, name=names[i - 1], buc=P.rand_act(rng, kinds), hcr=P.rand_act(rng, kinds),
                              hcd=P.rand_act(rng, ['pass', 'modify', 'drop']), huc=P.rand_act(rng, ['pass', 'modify', 'drop']),
                              oal=P.rand_act(rng, ['pass', 'modify', 'drop'], lifecycle=True), oucc=['pass'],
                              dns=rng.choice([['none'], ['none'], ['ip', b'10.1.2.3']])))
@@ -165,7 +166,7 @@ def gen_run_cases(rng, quick):
                 steps.append(['client', b'\x16\x03\x01 Proxy-Authorization: Basic ' + CODE, None])
             if rng.random() < 0.4:
                 steps.append(['upstream', b'\x16\x03\x03srv'])
-        out.append(dict(kind='run', basic_auth=b'user:pass', tables=user_tables(rng, rng.choice([0, 1, 1, 2, 3])),
+        out.append(dict(kind='run', basic_auth=b'user:pass', tables=user_tables(rng, rng.choice([0, 1, 1, 2, 2, 3])),
                         disable=rng.choice([[], [], [b'x-secret']]), steps=steps,
                         end=rng.choice(['client_eof', 'shutdown', 'upstream_eof', 'client_reset'])))
     return out
@@ -175,7 +176,8 @@ def gen_order_cases(rng, quick):
     out = []
     for _ in range(14 if quick else 200):
         n = rng.randrange(0, 5)
-        ts = [P.mk_table(i) for i in range(1, n + 1)]
+        names = P.pick_names(rng, n)
+        ts = [P.mk_table(i, name=names[i - 1]) for i in range(1, n + 1)]
         rng.shuffle(ts)
         if ts and rng.random() < 0.4:
             ts.insert(rng.randrange(len(ts) + 1), dict(rng.choice(ts)))       # the same class listed twice
